@@ -80,6 +80,12 @@ func (p *clientStreamProcessorFMP4) run(ctx context.Context) error {
 		return fmt.Errorf("rendition playlists with multiple tracks are not supported")
 	}
 
+	for _, track := range p.init.Tracks {
+		if track.TimeScale == 0 {
+			return fmt.Errorf("invalid time scale")
+		}
+	}
+
 	p.leadingTrackID = fmp4PickLeadingTrack(&p.init)
 
 	tracks := make([]*Track, len(p.init.Tracks))
